@@ -15,7 +15,8 @@ func genCase(r *kit.Rand, i int, tier string) (chain, stop, class string, n int)
 	thorough := tier == "thorough"
 	stop = []string{"task", "close", "delete", "task"}[r.Intn(4)]
 	// ---- chain
-	mids := []string{"where", "post", "udf", "where", "post"}
+	bms := kit.Pick(r, []int{20, 40})
+	mids := []string{"where", "post", "udf", "where", "post", fmt.Sprintf("barrier:%d", bms), fmt.Sprintf("pbarrier:%d", bms), fmt.Sprintf("barriernd:%d", bms)}
 	var nodes []string
 	nodes = append(nodes, "from")
 	nmid := r.Intn(3)
@@ -55,6 +56,15 @@ func genCase(r *kit.Rand, i int, tier string) (chain, stop, class string, n int)
 	}
 	chain = strings.Join(nodes, ",")
 	hasFail := term == "fail"
+	if hasFail {
+		// the failing UDF counts every message, barrier messages included: keep barriers out of these chains
+		for j, k := range nodes {
+			if strings.Contains(k, "barrier") {
+				nodes[j] = "where"
+			}
+		}
+		chain = strings.Join(nodes, ",")
+	}
 	depth := len(nodes) + 1 // nodes incl. the stream source
 	// ---- class and number of points
 	switch c := r.Intn(10); {
